@@ -12,3 +12,5 @@ import WindVerif.Props.C11
 import WindVerif.Props.C12
 import WindVerif.Props.C13
 import WindVerif.Props.C20
+import WindVerif.Props.C04
+import WindVerif.Props.C18
